@@ -886,6 +886,17 @@ func (x *Exec) modset(env *SpecEnv, ct *FuncContract) map[string][]Term {
 					env.fail("'all' needs a slice, map or struct type")
 				}
 			case *SSel:
+				if id, ok := l.X.(*SIdent); ok {
+					if _, isVar := env.vars[id.Name]; !isVar {
+						if p := env.importedPkg(id.Name); p != nil {
+							if v, ok := p.Types.Scope().Lookup(l.Sel).(*types.Var); ok {
+								k := vc.globalKind(v)
+								out[k.Name] = append(out[k.Name], mathInt(0))
+								return
+							}
+						}
+					}
+				}
 				base := env.eval(l.X)
 				et, isPtr := deref(base.Ty)
 				if !isPtr {
